@@ -58,7 +58,7 @@ REQUIRED_CLASSES = ['slerp:equal', 'slerp:antipodal', 'slerp:orthogonal-tie', 's
                     'slerp:lerp-branch', 'slerp:just-below-threshold', 'slerp:just-above-threshold',
                     'slerp:near-orthogonal', 'nan:1run', 'nan:2+runs', 'nan:runlen>=3', 'nan:all-interior',
                     'nan:gap-lerp', 'nan:gap-slerp', 'nan:mixed-with-sign-flips', 'jumps:odd-count',
-                    'jumps:even-count', 'jumps:row0-flipped', 'jumps:last-row-only']
+                    'jumps:even-count', 'jumps:row0-flipped', 'jumps:last-row-only', 'slerp:containers']
 
 W = np.array([0.0, 1e-9, 0.1, 0.25, 0.5, 0.75, 0.9, 1.0 - 1e-9, 1.0])
 
@@ -392,6 +392,43 @@ def job_hist(ctx, seq, k, N, lo, hi):
                     'legend': '+ valid, - valid negated, n NaN', 'base_rows_0_1': base[:2].tolist()})
 
 
+def job_containers(ctx, k):
+    """The endpoints handed over in other containers / numeric types (integer-valued unit quaternions written as ints, lists, tuples,
+    single precision, Quaternion objects): the interpolants are those of the same values as float64 arrays."""
+    from ahrs import Quaternion
+    Q8 = [np.array(v, float) for v in ([1, 0, 0, 0], [0, 1, 0, 0], [0, 0, 1, 0], [0, 0, 0, 1], [-1, 0, 0, 0], [0, 0, -1, 0])]
+    gen = [A.MENU[k], A.MENU[(k + 3) % 8], rq.qunit(np.array([0.2, -0.1, 0.9, 0.3]))]
+    carriers = [('int list', lambda v: [int(x) for x in v], True), ('int64 array', lambda v: np.array(v).astype(np.int64), True), ('int tuple', lambda v: tuple(int(x) for x in v), True),
+                ('float list', lambda v: [float(x) for x in v], False), ('float tuple', lambda v: tuple(float(x) for x in v), False),
+                ('float32 array', lambda v: np.array(v, np.float32), False), ('Quaternion', lambda v: Quaternion(np.array(v, float)), False)]
+    for cname, fn in _copies():
+        for ip, pi_ in enumerate(Q8):
+            for ig, g in enumerate(gen):
+                for first, second, tag in ((pi_, g, 'int-valued first endpoint'), (g, pi_, 'int-valued second endpoint')):
+                    ref = np.asarray(fn(first.copy(), second.copy(), W.copy()))
+                    for cn1, c1, ints1 in carriers:
+                        for cn2, c2, ints2 in carriers:
+                            a_int = first is pi_
+                            if (ints1 and not a_int) or (ints2 and a_int):
+                                continue                   # integer carriers only for the integer-valued endpoint
+                            key = f'{tag} Q8[{ip}] generic#{ig} p as {cn1}, q as {cn2}'
+                            ctx.evals += 1
+                            try:
+                                S = np.asarray(fn(c1(first), c2(second), W.copy()), float)
+                            except (TypeError, ValueError):            # a refusal of the container is not judged; a wrong answer is
+                                ctx.outcome(('container-refused', cn1, cn2))
+                                continue
+                            except Exception as ex:
+                                ctx.fail(f'{cname}: raises for endpoints in another container', key, f'{type(ex).__name__}: {ex}'[:160], 'interpolants')
+                                continue
+                            tol = 1e-6 if 'float32' in (cn1 + cn2) else TOL
+                            ok = S.shape == ref.shape and bool(np.all(np.isfinite(S))) and float(np.abs(S - ref).max()) <= tol
+                            ctx.expect(ok, f'{cname}: endpoints in another container / numeric type give the interpolants of the float64 arrays', key, S, ref, tol)
+                    ctx.seen(('containers', cname, ip, ig, tag))
+                    ctx.cls('slerp:containers')
+    ctx.sample({'containers': [c[0] for c in carriers], 'p': Q8[2].tolist(), 'q': gen[0].tolist()})
+
+
 def run(ctx):
     A.selftest()
     allk = list(range(len(A.MENU)))
@@ -406,6 +443,7 @@ def run(ctx):
     pnames = ['I', 'H20', 'H40'] + [f'M{k}' for k in ks]
     for pn in pnames:
         jobs.append(('job_delta', (pn,)))
+    jobs += [('job_containers', (k,)) for k in ks[:2]]
     seqs = [('A', 0)] + [(s, k) for k in ks for s in ('B', 'C')]
     for seq, k in seqs:
         for N in (3, 4, 5, 6):
